@@ -346,7 +346,7 @@ type site struct {
 	alts []string
 }
 
-var wsAlts = []string{"\t", "\n", "\r\n", "  ", " \n\t "}
+var wsAlts = []string{"\t", "\n", "\r\n", "  ", " \n\t ", "\r"}
 var wsAltsSmall = []string{"\n"}
 
 // spellSites lists the deviation sites of a token stream. small selects the reduced alphabet W'.
